@@ -5,6 +5,14 @@ PY_SUBSET = ('Python semantics of the executed subset as encoded by pyvc.symexec
              'sequences as len/at theories, path-by-path execution, loops cut at invariants)')
 
 PROPS = {
+    'C03': {
+        'level': 'other',
+        'proof': [('contracts.ignored', None)],
+        'assumptions': [PY_SUBSET],
+        'explanation': 'the tokenizer that re-creates the characters lark ignores is proved to reproduce the '
+                       'covered source text exactly (tokens contiguous, each carrying its own text); the parser '
+                       'round trip over generated control streams and the frame of edits are bounded checks',
+    },
     'C20': {
         'level': 'other',
         'proof': [('contracts.nmtable', None), ('contracts.intmath', None)],
